@@ -2,6 +2,7 @@ package c10
 
 import (
 	"fmt"
+	"strings"
 	"time"
 
 	"github.com/cossacklabs/acra/pseudonymization/common"
@@ -80,6 +81,12 @@ type faultEnv struct {
 func (f *faultEnv) violation(point, what string, d map[string]interface{}) {
 	d["scenario"], d["store"], d["access_time_granularity"], d["fault_point"] = "redis command fault", f.store, granName(f.gran), point
 	d["replay"] = fmt.Sprintf("VERIF_SEED=%d ./check C10 %s", f.r.Seed, f.r.Tier)
+	// go-redis gives up a read after 3 s of WALL clock (Acra builds the client with the default options): on a saturated
+	// machine a healthy stand-in server can miss that. A client-side timeout is a resource verdict, never a violation.
+	if e, ok := d["error"].(string); ok && strings.Contains(e, "i/o timeout") {
+		f.r.Inconclusive("redis fault/" + point + ": go-redis client-side i/o timeout (wall clock) - " + what)
+		return
+	}
 	f.r.Violation("redis fault/"+point+"/"+what, d)
 }
 
